@@ -94,3 +94,27 @@ contract("ghost:dur_mul_is_repeated_addition", use_at_calls=False,
          cases=[Case(f, lambda E, st, f=f: {"a": mk_duration(E, st, "a", f),
                                             "n": E.sym_int("n")}) for f in ("unit", "week")])
 contract("ghost:dur_unit_ratios", use_at_calls=False, cases=[Case("concrete", lambda E, st: {})])
+
+from .shapes import mk_truncated  # noqa
+
+
+def _trunc_ghost_cases():
+    out = []
+    for nm, fields in (("hh", ["_hour_of_day"]), ("mm", ["_minute_of_hour"]),
+                       ("hhmm", ["_hour_of_day", "_minute_of_hour"])):
+        for zk in (False, True):
+            def build(E, st, fields=fields, zk=zk):
+                return {"t": mk_truncated(E, st, "t", fields, zk),
+                        "p": mk_timepoint(E, st, "p", "cal", "hms", whole=True)}
+            req = ["valid_date(p)", "time_normal(p)", "tz_ok(p._time_zone)",
+                   "tz_ok(t._time_zone)"]
+            if "_hour_of_day" in fields:
+                req.append("0 <= t._hour_of_day and t._hour_of_day < 24")
+            if "_minute_of_hour" in fields:
+                req.append("0 <= t._minute_of_hour and t._minute_of_hour < 60")
+            out.append(Case("%s-%s" % (nm, "zone" if zk else "nozone"), build, requires=req))
+    return out
+
+
+contract("ghost:truncated_commutes_and_idempotent", use_at_calls=False,
+         cases=_trunc_ghost_cases())
